@@ -47,6 +47,7 @@ def generate(seed, tier):
     k["arity"] = rng.choice([3, 4, 6])
     k["unary"] = rng.choice([0.0, 0.1])
     tb = model.gen_treebank(rng, k, nsent=rng.choice([2, 3, 4, 6]))
+    model.add_twins(rng, tb, k)
     if rng.random() < 0.4:
         tb.append(model.clone(rng.choice(tb)))
         tb[-1]["sid"] = tb[-2]["sid"] + 1
